@@ -1,6 +1,1597 @@
 import MypyVerif.Model.PyBind
-/-! Helper lemmas for the call-binding models (property theorems are in Props/C12Bind.lean). -/
+/-!
+Helper lemmas for the call-binding models (property theorems are in Props/C12Bind.lean).
+
+Plan: both models are reduced, for calls made of `npos` positional actuals followed by distinct keywords
+`kws`, to the same declarative condition `CoreOk`:
+  `pyBind_none_iff`     CPython's `initialize_locals` model binds the call ⇔ `CoreOk`
+  `mypy_ok_iff`         mypy's mapper + `check_argument_count` model reports nothing ⇔ `CoreOk`
+-/
 namespace PyBind
 open ArgMap
+
+/-- the call `f(e₁, …, e_npos, k₁=…, …, k_m=…)` as mypy sees it -/
+def coreCall (npos : Nat) (kws : List Name) : List Actual :=
+  List.replicate npos .pos ++ kws.map .named
+
+/-- the declarative binding condition, phrased with CPython's slot search -/
+structure CoreOk (s : Sig) (npos : Nat) (kws : List Name) : Prop where
+  /-- no surplus positional arguments -/
+  a : npos ≤ s.nargs ∨ s.varargs.isSome
+  /-- every keyword names a parameter, or there is `**kwargs` -/
+  b : ∀ x ∈ kws, findSlot s x = none → s.varkw.isSome
+  /-- no keyword names a parameter already filled positionally -/
+  c : ∀ x ∈ kws, ∀ j, findSlot s x = some j → min npos s.nargs ≤ j
+  /-- every positional parameter without default gets a value -/
+  d : ∀ i, i < s.nargs - s.ndef → i < npos ∨ ∃ x ∈ kws, findSlot s x = some i
+  /-- every keyword-only parameter without default gets a value -/
+  e : ∀ j (h : j < s.kwonly.length), (s.kwonly[j]).2 = false → ∃ x ∈ kws, findSlot s x = some (s.nargs + j)
+
+/-! ### indexOf / findSlot -/
+
+theorem indexOf_some {l : List Name} {x : Name} {j : Nat} (h : indexOf l x = some j) :
+    l[j]? = some x := by
+  induction l generalizing j with
+  | nil => simp [indexOf] at h
+  | cons y ys ih =>
+    simp only [indexOf] at h
+    split at h
+    · rename_i hy; injection h with h; subst h; simp [hy]
+    · cases h' : indexOf ys x with
+      | none => simp [h'] at h
+      | some k =>
+        simp [h'] at h; subst h
+        simpa using ih h'
+
+theorem indexOf_lt {l : List Name} {x : Name} {j : Nat} (h : indexOf l x = some j) : j < l.length := by
+  have := indexOf_some h
+  exact (List.getElem?_eq_some_iff.1 this).1
+
+theorem indexOf_none {l : List Name} {x : Name} : indexOf l x = none ↔ x ∉ l := by
+  induction l with
+  | nil => simp [indexOf]
+  | cons y ys ih =>
+    simp only [indexOf]
+    split
+    · rename_i hy; simp [hy]
+    · rename_i hy
+      simp only [Option.map_eq_none_iff, ih, List.mem_cons, not_or]
+      exact ⟨fun h => ⟨fun e => hy e.symm, h⟩, fun h => h.2⟩
+
+theorem indexOf_mem {l : List Name} {x : Name} (h : x ∈ l) : ∃ j, indexOf l x = some j := by
+  cases h' : indexOf l x with
+  | none => exact absurd h (indexOf_none.1 h')
+  | some j => exact ⟨j, rfl⟩
+
+theorem indexOf_inj {l : List Name} {x y : Name} {j : Nat}
+    (hx : indexOf l x = some j) (hy : indexOf l y = some j) : x = y := by
+  have h1 := indexOf_some hx
+  have h2 := indexOf_some hy
+  rw [h1] at h2; injection h2
+
+/-- in a duplicate-free list the element at position `j` is found at `j` -/
+theorem indexOf_of_getElem {l : List Name} (hn : l.Nodup) {x : Name} {j : Nat} (h : l[j]? = some x) :
+    indexOf l x = some j := by
+  induction l generalizing j with
+  | nil => simp at h
+  | cons y ys ih =>
+    rw [List.nodup_cons] at hn
+    cases j with
+    | zero => simp at h; simp [indexOf, h]
+    | succ k =>
+      simp at h
+      have hmem : x ∈ ys := List.mem_iff_getElem?.2 ⟨k, h⟩
+      have hne : y ≠ x := fun e => hn.1 (e ▸ hmem)
+      simp [indexOf, hne, ih hn.2 h]
+
+theorem findSlot_poskw {s : Sig} {x : Name} {j : Nat} (h : indexOf s.poskw x = some j) :
+    findSlot s x = some (s.posonly.length + j) := by
+  simp [findSlot, h]
+
+theorem findSlot_cases {s : Sig} {x : Name} {j : Nat} (h : findSlot s x = some j) :
+    (∃ i, indexOf s.poskw x = some i ∧ j = s.posonly.length + i ∧ j < s.nargs) ∨
+    (∃ i, indexOf s.poskw x = none ∧ indexOf (s.kwonly.map (·.1)) x = some i ∧ j = s.nargs + i ∧
+          i < s.kwonly.length) := by
+  unfold findSlot at h
+  cases h1 : indexOf s.poskw x with
+  | some i =>
+    simp [h1] at h
+    have := indexOf_lt h1
+    exact Or.inl ⟨i, rfl, h.symm, by unfold Sig.nargs; omega⟩
+  | none =>
+    simp only [h1] at h
+    cases h2 : indexOf (s.kwonly.map (·.1)) x with
+    | none => simp [h2] at h
+    | some i =>
+      simp [h2] at h
+      have := indexOf_lt h2
+      exact Or.inr ⟨i, rfl, rfl, h.symm, by simpa using this⟩
+
+theorem findSlot_none {s : Sig} {x : Name} :
+    findSlot s x = none ↔ x ∉ s.poskw ∧ x ∉ s.kwonly.map (·.1) := by
+  unfold findSlot
+  cases h1 : indexOf s.poskw x with
+  | some i =>
+    have : x ∈ s.poskw := by
+      by_cases hm : x ∈ s.poskw
+      · exact hm
+      · rw [indexOf_none.2 hm] at h1; cases h1
+    simp [this]
+  | none =>
+    have h1' := indexOf_none.1 h1
+    cases h2 : indexOf (s.kwonly.map (·.1)) x with
+    | none => simp only [true_iff]; exact ⟨h1', indexOf_none.1 h2⟩
+    | some i =>
+      have : x ∈ s.kwonly.map (·.1) := by
+        by_cases hm : x ∈ s.kwonly.map (·.1)
+        · exact hm
+        · rw [indexOf_none.2 hm] at h2; cases h2
+      simp [this]
+
+theorem findSlot_inj {s : Sig} {x y : Name} {j : Nat}
+    (hx : findSlot s x = some j) (hy : findSlot s y = some j) : x = y := by
+  rcases findSlot_cases hx with ⟨i, h1, e1, l1⟩ | ⟨i, _, h1, e1, _⟩ <;>
+  rcases findSlot_cases hy with ⟨i', h2, e2, l2⟩ | ⟨i', _, h2, e2, _⟩
+  · have : i = i' := by omega
+    subst this; exact indexOf_inj h1 h2
+  · omega
+  · omega
+  · have : i = i' := by omega
+    subst this; exact indexOf_inj h1 h2
+
+/-! ### the keyword loop -/
+
+/-- each new slot is not yet filled -/
+def Fresh : List Nat → List Nat → Prop
+  | _, [] => True
+  | filled, j :: js => j ∉ filled ∧ Fresh (filled ++ [j]) js
+
+theorem fresh_iff (js : List Nat) : ∀ filled, Fresh filled js ↔ (∀ j ∈ js, j ∉ filled) ∧ js.Nodup := by
+  induction js with
+  | nil => intro filled; simp [Fresh]
+  | cons j js ih =>
+    intro filled
+    unfold Fresh
+    rw [ih, List.nodup_cons]
+    constructor
+    · rintro ⟨h1, h2, h3⟩
+      refine ⟨?_, ?_, h3⟩
+      · intro k hk
+        rcases List.mem_cons.1 hk with rfl | hk
+        · exact h1
+        · intro hkf; exact h2 k hk (List.mem_append_left _ hkf)
+      · intro hj; exact h2 j hj (List.mem_append_right _ (List.mem_singleton.2 rfl))
+    · rintro ⟨h1, h2, h3⟩
+      refine ⟨h1 j (List.mem_cons_self ..), ?_, h3⟩
+      intro k hk hkf
+      rcases List.mem_append.1 hkf with h | h
+      · exact h1 k (List.mem_cons_of_mem _ hk) h
+      · have : k = j := by simpa using h
+        exact h2 (this ▸ hk)
+
+theorem kwLoop_ok_iff (s : Sig) (all : List Name) : ∀ (kws : List Name) (filled r : List Nat),
+    kwLoop s all kws filled = .ok r ↔
+      ((∀ x ∈ kws, findSlot s x = none → s.varkw.isSome) ∧
+       Fresh filled (kws.filterMap (findSlot s)) ∧ r = filled ++ kws.filterMap (findSlot s)) := by
+  intro kws
+  induction kws with
+  | nil =>
+    intro filled r
+    simp only [kwLoop, List.filterMap_nil, Fresh, List.append_nil]
+    constructor
+    · intro h; injection h with h; exact ⟨by simp, trivial, h.symm⟩
+    · rintro ⟨_, _, h⟩; rw [h]
+  | cons x xs ih =>
+    intro filled r
+    simp only [kwLoop]
+    cases hx : findSlot s x with
+    | some j =>
+      simp only [List.filterMap_cons, hx, Fresh]
+      by_cases hc : filled.contains j = true
+      · rw [if_pos hc]
+        have hm : j ∈ filled := by simpa using hc
+        constructor
+        · intro h; cases h
+        · rintro ⟨_, ⟨h, _⟩, _⟩; exact absurd hm h
+      · rw [if_neg hc]
+        have hm : j ∉ filled := by simpa using hc
+        rw [ih]
+        constructor
+        · rintro ⟨h1, h2, h3⟩
+          refine ⟨?_, ⟨hm, h2⟩, by simpa using h3⟩
+          intro y hy
+          rcases List.mem_cons.1 hy with rfl | hy
+          · intro h; rw [hx] at h; cases h
+          · exact h1 y hy
+        · rintro ⟨h1, ⟨_, h2⟩, h3⟩
+          exact ⟨fun y hy => h1 y (List.mem_cons_of_mem _ hy), h2, by simpa using h3⟩
+    | none =>
+      simp only [List.filterMap_cons, hx]
+      by_cases hv : s.varkw.isSome = true
+      · rw [if_pos hv]
+        rw [ih]
+        constructor
+        · rintro ⟨h1, h2, h3⟩
+          refine ⟨?_, h2, h3⟩
+          intro y hy
+          rcases List.mem_cons.1 hy with rfl | hy
+          · intro _; exact hv
+          · exact h1 y hy
+        · rintro ⟨h1, h2, h3⟩
+          exact ⟨fun y hy => h1 y (List.mem_cons_of_mem _ hy), h2, h3⟩
+      · rw [if_neg hv]
+        constructor
+        · intro h; split at h <;> cases h
+        · rintro ⟨h1, _, _⟩
+          exact absurd (h1 x (List.mem_cons_self ..) hx) hv
+
+theorem slots_nodup (s : Sig) : ∀ (kws : List Name), kws.Nodup → (kws.filterMap (findSlot s)).Nodup := by
+  intro kws
+  induction kws with
+  | nil => intro _; simp
+  | cons x xs ih =>
+    intro h
+    rw [List.nodup_cons] at h
+    rw [List.filterMap_cons]
+    cases hx : findSlot s x with
+    | none => exact ih h.2
+    | some j =>
+      simp only
+      rw [List.nodup_cons]
+      refine ⟨?_, ih h.2⟩
+      intro hm
+      obtain ⟨y, hy, hy'⟩ := List.mem_filterMap.1 hm
+      have := findSlot_inj hx hy'
+      exact h.1 (this ▸ hy)
+
+/-! ### `pyBind` binds ⇔ `CoreOk` -/
+
+theorem pyBind_none_iff (s : Sig) (npos : Nat) (kws : List Name) (hk : kws.Nodup) :
+    pyBind s npos kws = none ↔ CoreOk s npos kws := by
+  unfold pyBind
+  simp only
+  have hnd := slots_nodup s kws hk
+  cases hl : kwLoop s kws kws (List.range (min npos s.nargs)) with
+  | error e =>
+    simp only
+    constructor
+    · intro h; cases h
+    · intro ok
+      exfalso
+      have : ¬ ∃ r, kwLoop s kws kws (List.range (min npos s.nargs)) = .ok r := by
+        rintro ⟨r, hr⟩; rw [hl] at hr; cases hr
+      apply this
+      refine ⟨_, (kwLoop_ok_iff s kws kws _ _).2 ⟨ok.b, ?_, rfl⟩⟩
+      rw [fresh_iff]
+      refine ⟨?_, hnd⟩
+      intro j hj
+      obtain ⟨x, hx, hx'⟩ := List.mem_filterMap.1 hj
+      have := ok.c x hx j hx'
+      simp only [List.mem_range]; omega
+  | ok filled =>
+    obtain ⟨hb, hfresh, hfilled⟩ := (kwLoop_ok_iff s kws kws _ _).1 hl
+    rw [fresh_iff] at hfresh
+    have hmem : ∀ i, i ∈ filled ↔ (i < min npos s.nargs ∨ ∃ x ∈ kws, findSlot s x = some i) := by
+      intro i
+      rw [hfilled, List.mem_append, List.mem_range, List.mem_filterMap]
+    have hc : ∀ x ∈ kws, ∀ j, findSlot s x = some j → min npos s.nargs ≤ j := by
+      intro x hx j hj
+      have := hfresh.1 j (List.mem_filterMap.2 ⟨x, hx, hj⟩)
+      simp only [List.mem_range] at this; omega
+    simp only
+    constructor
+    · intro h
+      split at h
+      · cases h
+      · rename_i hA
+        split at h
+        · cases h
+        · rename_i hD
+          split at h
+          · cases h
+          · rename_i hE
+            refine ⟨?_, hb, hc, ?_, ?_⟩
+            · by_cases hv : s.varargs.isSome = true
+              · exact Or.inr hv
+              · left
+                have hv' : s.varargs.isNone = true := by
+                  cases hvv : s.varargs <;> simp [hvv] at hv ⊢
+                apply Nat.le_of_not_lt
+                intro hgt; exact hA ⟨hgt, hv'⟩
+            · intro i hi
+              have hD' : ∀ i, i < s.nargs - s.ndef → i ∈ filled := by
+                simpa [List.any_eq_true] using hD
+              rcases (hmem i).1 (hD' i hi) with h1 | h1
+              · left; omega
+              · exact Or.inr h1
+            · intro j hj hreq
+              have hE' := hE
+              rw [Bool.not_eq_true, List.any_eq_false] at hE'
+              have := hE' (s.kwonly[j], j) (List.mk_mem_zipIdx_iff_getElem?.2 (by simp [hj]))
+              simp only [hreq, Bool.not_false, Bool.true_and, Bool.not_eq_true', Bool.not_eq_false] at this
+              have hin : (s.nargs + j) ∈ filled := by simpa using this
+              rcases (hmem _).1 hin with h1 | h1
+              · omega
+              · exact h1
+    · intro ok
+      have hA : ¬ (npos > s.nargs ∧ s.varargs.isNone = true) := by
+        rintro ⟨h1, h2⟩
+        rcases ok.a with h | h
+        · omega
+        · cases hvv : s.varargs <;> simp [hvv] at h h2
+      have hD : ¬ ((List.range (s.nargs - s.ndef)).any fun i => !filled.contains i) = true := by
+        rw [Bool.not_eq_true, List.any_eq_false]
+        intro i hi
+        rw [List.mem_range] at hi
+        have : i ∈ filled := by
+          rw [hmem]
+          rcases ok.d i hi with h | h
+          · left; omega
+          · exact Or.inr h
+        simp [this]
+      have hE : ¬ (s.kwonly.zipIdx.any fun x => !x.1.2 && !filled.contains (s.nargs + x.2)) = true := by
+        rw [Bool.not_eq_true, List.any_eq_false]
+        rintro ⟨k, j⟩ hkj
+        have hget := List.mk_mem_zipIdx_iff_getElem?.1 hkj
+        obtain ⟨hj, hkj'⟩ := List.getElem?_eq_some_iff.1 hget
+        cases hdef : k.2 with
+        | true => simp
+        | false =>
+          have := ok.e j hj (by rw [hkj']; exact hdef)
+          have : (s.nargs + j) ∈ filled := (hmem _).2 (Or.inr this)
+          simp [this]
+      rw [if_neg hA, if_neg hD, if_neg hE]
+
+/-! ### the shape of `Sig.toFormals` -/
+
+def Sig.sv (s : Sig) : Nat := if s.varargs.isSome then 1 else 0
+
+theorem posFormals_length (s : Sig) (xs : List Name) (i : Nat) (named : Bool) :
+    (posFormals s xs i named).length = xs.length := by
+  induction xs generalizing i with
+  | nil => rfl
+  | cons x xs ih => simp [posFormals, ih]
+
+theorem posFormals_getElem? (s : Sig) (xs : List Name) (i : Nat) (named : Bool) (j : Nat) :
+    (posFormals s xs i named)[j]? =
+      (xs[j]?).map fun x => { kind := s.posKind (i + j), name := if named then some x else none } := by
+  induction xs generalizing i j with
+  | nil => simp [posFormals]
+  | cons x xs ih =>
+    cases j with
+    | zero => simp [posFormals]
+    | succ j =>
+      simp only [posFormals, List.getElem?_cons_succ, ih]
+      congr 1
+      funext y
+      have : i + 1 + j = i + (j + 1) := by omega
+      rw [this]
+
+theorem toFormals_eq (s : Sig) : s.toFormals =
+    posFormals s s.posonly 0 false ++ (posFormals s s.poskw s.posonly.length true ++
+      (starFormals s ++ (kwFormals s ++ star2Formals s))) := rfl
+
+theorem starFormals_length (s : Sig) : (starFormals s).length = s.sv := by
+  unfold starFormals Sig.sv; cases s.varargs <;> simp
+
+theorem kwFormals_length (s : Sig) : (kwFormals s).length = s.kwonly.length := by
+  simp [kwFormals]
+
+theorem posKind_cases (s : Sig) (i : Nat) : s.posKind i = .pos ∨ s.posKind i = .opt := by
+  unfold Sig.posKind; split <;> simp
+
+/-- positional formals -/
+theorem formal_pos (s : Sig) {i : Nat} (h : i < s.nargs) :
+    ∃ f, s.toFormals[i]? = some f ∧ f.kind = s.posKind i ∧
+      f.name = (if i < s.posonly.length then none else s.poskw[i - s.posonly.length]?) := by
+  rw [toFormals_eq]
+  by_cases h1 : i < s.posonly.length
+  · rw [List.getElem?_append_left (by rw [posFormals_length]; exact h1), posFormals_getElem?]
+    obtain ⟨x, hx⟩ : ∃ x, s.posonly[i]? = some x := ⟨s.posonly[i], by simp [h1]⟩
+    simp [hx, h1]
+  · rw [List.getElem?_append_right (by rw [posFormals_length]; omega), posFormals_length,
+      List.getElem?_append_left (by rw [posFormals_length]; unfold Sig.nargs at h; omega), posFormals_getElem?]
+    have h2 : i - s.posonly.length < s.poskw.length := by unfold Sig.nargs at h; omega
+    obtain ⟨x, hx⟩ : ∃ x, s.poskw[i - s.posonly.length]? = some x := ⟨s.poskw[i - s.posonly.length], by simp [h2]⟩
+    have : s.posonly.length + (i - s.posonly.length) = i := by omega
+    simp [hx, h1, this]
+
+theorem toFormals_drop_pos (s : Sig) (j : Nat) :
+    s.toFormals[s.nargs + j]? = (starFormals s ++ (kwFormals s ++ star2Formals s))[j]? := by
+  rw [toFormals_eq, ← List.append_assoc]
+  rw [List.getElem?_append_right (by simp [posFormals_length, Sig.nargs])]
+  congr 1
+  simp [posFormals_length, Sig.nargs]
+
+theorem formal_star (s : Sig) {v : Name} (h : s.varargs = some v) :
+    s.toFormals[s.nargs]? = some { kind := .star, name := some v } := by
+  have := toFormals_drop_pos s 0
+  simp only [Nat.add_zero] at this
+  rw [this]; simp [starFormals, h]
+
+theorem formal_kw (s : Sig) {j : Nat} (h : j < s.kwonly.length) :
+    s.toFormals[s.nargs + s.sv + j]? =
+      some { kind := if (s.kwonly[j]).2 then .namedOpt else .named, name := some (s.kwonly[j]).1 } := by
+  rw [Nat.add_assoc, toFormals_drop_pos]
+  rw [List.getElem?_append_right (by rw [starFormals_length]; omega), starFormals_length]
+  rw [List.getElem?_append_left (by rw [kwFormals_length]; omega)]
+  simp [kwFormals, h]
+
+theorem formal_star2 (s : Sig) :
+    s.toFormals[s.nargs + s.sv + s.kwonly.length]? =
+      (match s.varkw with | some w => some { kind := .star2, name := some w } | none => none) := by
+  rw [Nat.add_assoc, toFormals_drop_pos]
+  rw [List.getElem?_append_right (by rw [starFormals_length]; omega), starFormals_length]
+  rw [List.getElem?_append_right (by rw [kwFormals_length]; omega), kwFormals_length]
+  have : s.sv + s.kwonly.length - s.sv - s.kwonly.length = 0 := by omega
+  rw [this]
+  unfold star2Formals; cases s.varkw <;> simp
+
+theorem toFormals_length (s : Sig) :
+    s.toFormals.length = s.nargs + s.sv + s.kwonly.length + (if s.varkw.isSome then 1 else 0) := by
+  rw [toFormals_eq]
+  simp only [List.length_append, posFormals_length, starFormals_length, kwFormals_length]
+  unfold star2Formals Sig.nargs
+  cases s.varkw <;> simp <;> omega
+
+/-! ### name lookup in `Sig.toFormals` -/
+
+theorem nameIndex_append (A B : List Formal) (x : Name) :
+    nameIndex (A ++ B) x = match nameIndex A x with
+      | some j => some j
+      | none => (nameIndex B x).map (· + A.length) := by
+  induction A with
+  | nil => simp [nameIndex]
+  | cons f fs ih =>
+    simp only [List.cons_append, nameIndex]
+    split
+    · rfl
+    · rw [ih]
+      cases nameIndex fs x with
+      | some j => rfl
+      | none =>
+        cases nameIndex B x with
+        | none => rfl
+        | some k => simp; omega
+
+theorem star2Index_append (A B : List Formal) :
+    star2Index (A ++ B) = match star2Index A with
+      | some j => some j
+      | none => (star2Index B).map (· + A.length) := by
+  induction A with
+  | nil => simp [star2Index]
+  | cons f fs ih =>
+    simp only [List.cons_append, star2Index]
+    split
+    · rfl
+    · rw [ih]
+      cases star2Index fs with
+      | some j => rfl
+      | none =>
+        cases star2Index B with
+        | none => rfl
+        | some k => simp; omega
+
+theorem nameIndex_posFormals_unnamed (s : Sig) (xs : List Name) (i : Nat) (x : Name) :
+    nameIndex (posFormals s xs i false) x = none := by
+  induction xs generalizing i with
+  | nil => rfl
+  | cons y ys ih => simp [posFormals, nameIndex, ih]
+
+theorem nameIndex_posFormals_named (s : Sig) (xs : List Name) (i : Nat) (x : Name) :
+    nameIndex (posFormals s xs i true) x = indexOf xs x := by
+  induction xs generalizing i with
+  | nil => rfl
+  | cons y ys ih =>
+    simp only [posFormals, nameIndex, indexOf, ih]
+    simp
+
+theorem star2Index_posFormals (s : Sig) (xs : List Name) (i : Nat) (named : Bool) :
+    star2Index (posFormals s xs i named) = none := by
+  induction xs generalizing i with
+  | nil => rfl
+  | cons y ys ih =>
+    simp only [posFormals, star2Index, ih]
+    rcases posKind_cases s i with h | h <;> simp [h]
+
+theorem nameIndex_kwFormals (s : Sig) (x : Name) :
+    nameIndex (kwFormals s) x = indexOf (s.kwonly.map (·.1)) x := by
+  unfold kwFormals
+  induction s.kwonly with
+  | nil => rfl
+  | cons k ks ih => simp only [List.map_cons, nameIndex, indexOf, ih]; simp
+
+theorem star2Index_kwFormals (s : Sig) : star2Index (kwFormals s) = none := by
+  unfold kwFormals
+  induction s.kwonly with
+  | nil => rfl
+  | cons k ks ih =>
+    simp only [List.map_cons, star2Index, ih]
+    cases k.2 <;> simp
+
+/-- `formal_kinds.index(ARG_STAR2)` -/
+theorem star2Index_toFormals (s : Sig) :
+    star2Index s.toFormals =
+      if s.varkw.isSome then some (s.nargs + s.sv + s.kwonly.length) else none := by
+  rw [toFormals_eq]
+  simp only [star2Index_append, star2Index_posFormals, star2Index_kwFormals, posFormals_length,
+    starFormals_length, kwFormals_length]
+  have hs : star2Index (starFormals s) = none := by
+    unfold starFormals; cases s.varargs <;> simp [star2Index]
+  rw [hs]
+  unfold star2Formals Sig.nargs
+  cases s.varkw with
+  | none => simp [star2Index]
+  | some w => simp [star2Index]; omega
+
+/-- where `stepNamed` puts keyword `x` -/
+def kwTarget (F : List Formal) (x : Name) : Option Nat :=
+  match nameIndex F x with
+  | some j => if kindAt F j ≠ some .star then some j else star2Index F
+  | none => star2Index F
+
+theorem stepNamed_eq (F : List Formal) (st : St) (ai : Nat) (x : Name) :
+    stepNamed F st ai x = match kwTarget F x with
+      | some t => st.add t ai
+      | none => st := by
+  unfold stepNamed kwTarget
+  cases nameIndex F x with
+  | none => rfl
+  | some j =>
+    simp only
+    split <;> rfl
+
+/-- the slot number as a formal index: the `*args` formal sits between the two groups -/
+def Sig.formalOfSlot (s : Sig) (j : Nat) : Nat := if j < s.nargs then j else j + s.sv
+
+theorem kwTarget_eq (s : Sig) (hwf : s.WF) (x : Name) :
+    kwTarget s.toFormals x = match findSlot s x with
+      | some j => some (s.formalOfSlot j)
+      | none => star2Index s.toFormals := by
+  have hnd := hwf.1
+  unfold Sig.allNames at hnd
+  unfold kwTarget
+  have hni : nameIndex s.toFormals x =
+      match indexOf s.poskw x with
+      | some j => some (s.posonly.length + j)
+      | none =>
+        match nameIndex (starFormals s) x with
+        | some j => some (j + s.nargs)
+        | none =>
+          match indexOf (s.kwonly.map (·.1)) x with
+          | some j => some (j + s.sv + s.nargs)
+          | none => (nameIndex (star2Formals s) x).map (· + s.kwonly.length + s.sv + s.nargs) := by
+    rw [toFormals_eq]
+    simp only [nameIndex_append, nameIndex_posFormals_unnamed, nameIndex_posFormals_named,
+      nameIndex_kwFormals, posFormals_length, starFormals_length, kwFormals_length]
+    cases indexOf s.poskw x with
+    | some j => simp; omega
+    | none =>
+      simp only [Option.map_none]
+      cases nameIndex (starFormals s) x with
+      | some j => simp [Sig.nargs]; omega
+      | none =>
+        cases indexOf (s.kwonly.map (·.1)) x with
+        | some j => simp [Sig.nargs]; omega
+        | none =>
+          cases nameIndex (star2Formals s) x with
+          | none => simp
+          | some j => simp [Sig.nargs]; omega
+  rw [hni]
+  unfold findSlot
+  cases h1 : indexOf s.poskw x with
+  | some j =>
+    have hj := indexOf_lt h1
+    have hlt : s.posonly.length + j < s.nargs := by unfold Sig.nargs; omega
+    obtain ⟨f, hf, hk, _⟩ := formal_pos s hlt
+    have hkind : kindAt s.toFormals (s.posonly.length + j) ≠ some .star := by
+      unfold kindAt; rw [hf]
+      rcases posKind_cases s (s.posonly.length + j) with h | h <;> simp [hk, h]
+    simp [hkind, Sig.formalOfSlot, hlt]
+  | none =>
+    have hx1 : x ∉ s.poskw := indexOf_none.1 h1
+    simp only
+    cases hv : s.varargs with
+    | some v =>
+      by_cases hxv : v = x
+      · -- the keyword is the name of `*args`: falls through to `**kwargs`
+        have : nameIndex (starFormals s) x = some 0 := by simp [starFormals, hv, nameIndex, hxv]
+        rw [this]
+        have hstar : kindAt s.toFormals s.nargs = some .star := by
+          unfold kindAt; rw [formal_star s hv]; rfl
+        have hnot : x ∉ s.kwonly.map (·.1) := by
+          intro hm
+          rw [hv] at hnd
+          simp only [Option.toList_some] at hnd
+          have := (List.nodup_append.1 (List.nodup_append.1 hnd).1).2.2
+          exact this x (List.mem_append_right _ (by simp [hxv])) x hm rfl
+        rw [indexOf_none.2 hnot]
+        simp [hstar]
+      · have : nameIndex (starFormals s) x = none := by simp [starFormals, hv, nameIndex, hxv]
+        rw [this]
+        simp only
+        cases h2 : indexOf (s.kwonly.map (·.1)) x with
+        | some j =>
+          have hj := indexOf_lt h2
+          simp only [List.length_map] at hj
+          have hsv : s.sv = 1 := by simp [Sig.sv, hv]
+          have hf := formal_kw s hj
+          have hkind : kindAt s.toFormals (j + s.sv + s.nargs) ≠ some .star := by
+            unfold kindAt
+            have : j + s.sv + s.nargs = s.nargs + s.sv + j := by omega
+            rw [this, hf]
+            cases (s.kwonly[j]).2 <;> simp
+          simp only [hkind, ne_eq, not_false_eq_true, if_true]
+          have hge : ¬ (s.nargs + j < s.nargs) := by omega
+          simp [Sig.formalOfSlot, hge]; omega
+        | none =>
+          simp only
+          rw [star2Index_toFormals]
+          unfold star2Formals
+          cases hw : s.varkw with
+          | none => simp [nameIndex]
+          | some w =>
+            by_cases hxw : w = x
+            · have hf := formal_star2 s
+              rw [hw] at hf
+              have hkind : kindAt s.toFormals (0 + s.kwonly.length + s.sv + s.nargs) ≠ some .star := by
+                unfold kindAt
+                have : 0 + s.kwonly.length + s.sv + s.nargs = s.nargs + s.sv + s.kwonly.length := by omega
+                rw [this, hf]; simp
+              simp [nameIndex, hxw, hkind]; omega
+            · simp [nameIndex, hxw]
+    | none =>
+      have : nameIndex (starFormals s) x = none := by simp [starFormals, hv, nameIndex]
+      rw [this]
+      simp only
+      cases h2 : indexOf (s.kwonly.map (·.1)) x with
+      | some j =>
+        have hj := indexOf_lt h2
+        simp only [List.length_map] at hj
+        have hsv : s.sv = 0 := by simp [Sig.sv, hv]
+        have hf := formal_kw s hj
+        have hkind : kindAt s.toFormals (j + s.sv + s.nargs) ≠ some .star := by
+          unfold kindAt
+          have : j + s.sv + s.nargs = s.nargs + s.sv + j := by omega
+          rw [this, hf]
+          cases (s.kwonly[j]).2 <;> simp
+        simp only [hkind, ne_eq, not_false_eq_true, if_true]
+        have hge : ¬ (s.nargs + j < s.nargs) := by omega
+        simp [Sig.formalOfSlot, hge]; omega
+      | none =>
+        simp only
+        rw [star2Index_toFormals]
+        unfold star2Formals
+        cases hw : s.varkw with
+        | none => simp [nameIndex]
+        | some w =>
+          by_cases hxw : w = x
+          · have hf := formal_star2 s
+            rw [hw] at hf
+            have hkind : kindAt s.toFormals (0 + s.kwonly.length + s.sv + s.nargs) ≠ some .star := by
+              unfold kindAt
+              have : 0 + s.kwonly.length + s.sv + s.nargs = s.nargs + s.sv + s.kwonly.length := by omega
+              rw [this, hf]; simp
+            simp [nameIndex, hxw, hkind]; omega
+          · simp [nameIndex, hxw]
+
+/-! ### the mapping loop on core calls -/
+
+/-- number of leading non-star formals -/
+def Sig.lns (s : Sig) : Nat := if s.varargs.isSome then s.nargs else s.nargs + s.kwonly.length
+
+/-- the formal a positional actual number `a` is mapped to -/
+def posTarget (s : Sig) (a : Nat) : Option Nat :=
+  if a < s.lns then some a else if s.varargs.isSome then some s.nargs else none
+
+def posPairs (s : Sig) : Nat → Nat → Pairs
+  | _, 0 => []
+  | a, k + 1 => (match posTarget s a with | some t => [(t, a)] | none => []) ++ posPairs s (a + 1) k
+
+def kwPairs (F : List Formal) : Nat → List Name → Pairs
+  | _, [] => []
+  | a, x :: xs => (match kwTarget F x with | some t => [(t, a)] | none => []) ++ kwPairs F (a + 1) xs
+
+theorem kindAt_lt_lns (s : Sig) {i : Nat} (h : i < s.lns) :
+    ∃ k, kindAt s.toFormals i = some k ∧ k.isStar = false := by
+  unfold kindAt
+  by_cases h1 : i < s.nargs
+  · obtain ⟨f, hf, hk, _⟩ := formal_pos s h1
+    refine ⟨f.kind, by rw [hf]; rfl, ?_⟩
+    rcases posKind_cases s i with h | h <;> simp [hk, h, FK.isStar]
+  · unfold Sig.lns at h
+    cases hv : s.varargs with
+    | some v => simp [hv] at h; omega
+    | none =>
+      simp [hv] at h
+      have hsv : s.sv = 0 := by simp [Sig.sv, hv]
+      have hj : i - s.nargs < s.kwonly.length := by omega
+      have hf := formal_kw s hj
+      have : s.nargs + s.sv + (i - s.nargs) = i := by omega
+      rw [this] at hf
+      rw [hf]
+      refine ⟨_, rfl, ?_⟩
+      cases (s.kwonly[i - s.nargs]).2 <;> simp [FK.isStar]
+
+theorem kindAt_lns (s : Sig) :
+    kindAt s.toFormals s.lns =
+      if s.varargs.isSome then some .star else if s.varkw.isSome then some .star2 else none := by
+  unfold kindAt Sig.lns
+  cases hv : s.varargs with
+  | some v => simp [formal_star s hv]
+  | none =>
+    have hsv : s.sv = 0 := by simp [Sig.sv, hv]
+    have hf := formal_star2 s
+    rw [hsv] at hf
+    simp only [Option.isSome_none, Bool.false_eq_true, if_false, Nat.add_zero] at hf ⊢
+    rw [hf]
+    cases s.varkw <;> simp
+
+theorem stepPos_core (s : Sig) (a : Nat) (ps : Pairs) (amb : List Nat) :
+    stepPos s.toFormals { fi := min a s.lns, pairs := ps, ambiguous := amb } a =
+      { fi := min (a + 1) s.lns,
+        pairs := ps ++ (match posTarget s a with | some t => [(t, a)] | none => []),
+        ambiguous := amb } := by
+  unfold stepPos posTarget
+  by_cases h : a < s.lns
+  · obtain ⟨k, hk, hs⟩ := kindAt_lt_lns s h
+    have hm : min a s.lns = a := by omega
+    have hm' : min (a + 1) s.lns = a + 1 := by omega
+    simp [hm, hm', hk, hs, h, St.add]
+  · have hm : min a s.lns = s.lns := by omega
+    have hm' : min (a + 1) s.lns = s.lns := by omega
+    simp only [hm, hm', kindAt_lns, h, if_false]
+    cases hv : s.varargs with
+    | some v => simp [FK.isStar, St.add, Sig.lns, hv]
+    | none =>
+      cases hw : s.varkw with
+      | some w => simp [FK.isStar]
+      | none => simp
+
+theorem mapLoop_pos (s : Sig) (rest : List Actual) : ∀ (k a : Nat) (ps : Pairs) (amb : List Nat),
+    mapLoop s.toFormals (List.replicate k .pos ++ rest) a { fi := min a s.lns, pairs := ps, ambiguous := amb } =
+      mapLoop s.toFormals rest (a + k)
+        { fi := min (a + k) s.lns, pairs := ps ++ posPairs s a k, ambiguous := amb } := by
+  intro k
+  induction k with
+  | zero => intro a ps amb; simp [posPairs]
+  | succ k ih =>
+    intro a ps amb
+    simp only [List.replicate_succ, List.cons_append, mapLoop, step, stepPos_core]
+    rw [ih]
+    simp only [posPairs, List.append_assoc]
+    have : a + 1 + k = a + (k + 1) := by omega
+    rw [this]
+
+theorem mapLoop_kw (F : List Formal) : ∀ (kws : List Name) (a fi : Nat) (ps : Pairs) (amb : List Nat),
+    mapLoop F (kws.map .named) a { fi := fi, pairs := ps, ambiguous := amb } =
+      { fi := fi, pairs := ps ++ kwPairs F a kws, ambiguous := amb } := by
+  intro kws
+  induction kws with
+  | nil => intro a fi ps amb; simp [mapLoop, kwPairs]
+  | cons x xs ih =>
+    intro a fi ps amb
+    simp only [List.map_cons, mapLoop, step, stepNamed_eq]
+    cases hk : kwTarget F x with
+    | none => simp only [ih, kwPairs, hk, List.nil_append]
+    | some t => simp only [St.add, ih, kwPairs, hk, List.append_assoc]
+
+/-- `map_actuals_to_formals` on a core call, in closed form -/
+theorem map_core (s : Sig) (npos : Nat) (kws : List Name) :
+    mapActualsToFormals s.toFormals (coreCall npos kws) =
+      posPairs s 0 npos ++ kwPairs s.toFormals npos kws := by
+  unfold mapActualsToFormals coreCall
+  have h0 : (0 : Nat) = min 0 s.lns := by omega
+  simp only
+  rw [show ({ fi := 0, pairs := [], ambiguous := [] } : St) = { fi := min 0 s.lns, pairs := [], ambiguous := [] } by rw [← h0]]
+  rw [mapLoop_pos, mapLoop_kw]
+  simp
+
+/-! ### what the pairs of a core call contain -/
+
+theorem mapped_append (p q : Pairs) (i : Nat) : mapped (p ++ q) i = mapped p i ++ mapped q i := by
+  simp [mapped, List.filterMap_append]
+
+theorem mapped_nil (i : Nat) : mapped [] i = [] := rfl
+
+theorem mapped_single (t a i : Nat) : mapped [(t, a)] i = if t = i then [a] else [] := by
+  simp only [mapped, List.filterMap_cons, List.filterMap_nil]
+  split <;> rename_i h <;> split <;> simp_all
+
+theorem mem_mapped {ps : Pairs} {i b : Nat} : b ∈ mapped ps i ↔ (i, b) ∈ ps := by
+  simp only [mapped, List.mem_filterMap]
+  constructor
+  · rintro ⟨⟨t, c⟩, hm, h⟩
+    simp only at h
+    split at h
+    · rename_i ht; injection h with h; subst h; subst ht; exact hm
+    · cases h
+  · intro h; exact ⟨(i, b), h, by simp⟩
+
+theorem countActual_eq_zero {ps : Pairs} {b : Nat} : countActual ps b = 0 ↔ ∀ t, (t, b) ∉ ps := by
+  unfold countActual
+  rw [List.length_eq_zero_iff, List.filter_eq_nil_iff]
+  constructor
+  · intro h t hm; have := h (t, b) hm; simp at this
+  · rintro h ⟨t, c⟩ hm
+    simp only [decide_eq_true_eq]
+    intro hc; subst hc; exact h t hm
+
+theorem mem_posPairs (s : Sig) : ∀ (k a t b : Nat),
+    (t, b) ∈ posPairs s a k ↔ (a ≤ b ∧ b < a + k ∧ posTarget s b = some t) := by
+  intro k
+  induction k with
+  | zero => intro a t b; simp [posPairs]; omega
+  | succ k ih =>
+    intro a t b
+    simp only [posPairs, List.mem_append, ih]
+    constructor
+    · rintro (h | ⟨h1, h2, h3⟩)
+      · cases hp : posTarget s a with
+        | none => simp [hp] at h
+        | some t' =>
+          simp [hp] at h
+          obtain ⟨rfl, rfl⟩ := h
+          exact ⟨Nat.le_refl _, by omega, hp⟩
+      · exact ⟨by omega, by omega, h3⟩
+    · rintro ⟨h1, h2, h3⟩
+      by_cases hb : b = a
+      · subst hb; left; simp [h3]
+      · right; exact ⟨by omega, by omega, h3⟩
+
+theorem mem_kwPairs (F : List Formal) : ∀ (kws : List Name) (a t b : Nat),
+    (t, b) ∈ kwPairs F a kws ↔ ∃ x, kws[b - a]? = some x ∧ a ≤ b ∧ kwTarget F x = some t := by
+  intro kws
+  induction kws with
+  | nil => intro a t b; simp [kwPairs]
+  | cons y ys ih =>
+    intro a t b
+    simp only [kwPairs, List.mem_append, ih]
+    constructor
+    · rintro (h | ⟨x, h1, h2, h3⟩)
+      · cases hp : kwTarget F y with
+        | none => simp [hp] at h
+        | some t' =>
+          simp [hp] at h
+          obtain ⟨rfl, rfl⟩ := h
+          exact ⟨y, by simp, Nat.le_refl _, hp⟩
+      · refine ⟨x, ?_, by omega, h3⟩
+        have : b - a = (b - (a + 1)) + 1 := by omega
+        rw [this]; simpa using h1
+    · rintro ⟨x, h1, h2, h3⟩
+      by_cases hb : b = a
+      · subst hb; left
+        simp at h1; subst h1; simp [h3]
+      · right
+        refine ⟨x, ?_, by omega, h3⟩
+        have : b - a = (b - (a + 1)) + 1 := by omega
+        rw [this] at h1; simpa using h1
+
+theorem posTarget_eq_some_lt (s : Sig) {a i : Nat} (hi : i < s.lns) : posTarget s a = some i ↔ a = i := by
+  unfold posTarget
+  by_cases h : a < s.lns
+  · simp [h]
+  · simp only [h, if_false]
+    unfold Sig.lns at hi h
+    cases hv : s.varargs with
+    | some v => simp [hv] at hi h ⊢; omega
+    | none => simp [hv] at hi h ⊢; omega
+
+theorem posTarget_ne_gt (s : Sig) {a i : Nat} (hi : s.lns < i) : posTarget s a ≠ some i := by
+  unfold posTarget
+  by_cases h : a < s.lns
+  · simp [h]; omega
+  · simp only [h, if_false]
+    unfold Sig.lns at hi h
+    cases hv : s.varargs with
+    | some v => simp [hv] at hi h ⊢; omega
+    | none => simp
+
+theorem mapped_posPairs_lt (s : Sig) {i : Nat} (hi : i < s.lns) : ∀ (k a : Nat),
+    mapped (posPairs s a k) i = if a ≤ i ∧ i < a + k then [i] else [] := by
+  intro k
+  induction k with
+  | zero => intro a; simp [posPairs, mapped]
+  | succ k ih =>
+    intro a
+    simp only [posPairs, mapped_append, ih]
+    cases hp : posTarget s a with
+    | none =>
+      have : a ≠ i := fun e => by rw [(posTarget_eq_some_lt s hi).2 e] at hp; cases hp
+      simp only [mapped_nil, List.nil_append]
+      split <;> split <;> first | rfl | omega
+    | some t =>
+      simp only [mapped_single]
+      by_cases hti : t = i
+      · subst hti
+        have : a = t := (posTarget_eq_some_lt s hi).1 hp
+        subst this
+        simp
+        intro h; omega
+      · have : a ≠ i := fun e => hti (by rw [(posTarget_eq_some_lt s hi).2 e] at hp; injection hp with hp; exact hp.symm)
+        simp only [hti, if_false, List.nil_append]
+        split <;> split <;> first | rfl | omega
+
+theorem mapped_posPairs_gt (s : Sig) {i : Nat} (hi : s.lns < i) (k a : Nat) :
+    mapped (posPairs s a k) i = [] := by
+  apply List.eq_nil_iff_forall_not_mem.2
+  intro b hb
+  rw [mem_mapped, mem_posPairs] at hb
+  exact posTarget_ne_gt s hi hb.2.2
+
+/-- shape of the keyword part of `formal_to_actual[i]` when at most one keyword can target `i` -/
+theorem mapped_kwPairs_shape (F : List Formal) (i : Nat)
+    (hinj : ∀ x y, kwTarget F x = some i → kwTarget F y = some i → x = y) :
+    ∀ (kws : List Name) (a : Nat), kws.Nodup →
+      (mapped (kwPairs F a kws) i = [] ∧ ∀ x ∈ kws, kwTarget F x ≠ some i) ∨
+      (∃ b x, mapped (kwPairs F a kws) i = [b] ∧ a ≤ b ∧ b < a + kws.length ∧ x ∈ kws ∧
+        kwTarget F x = some i) := by
+  intro kws
+  induction kws with
+  | nil => intro a _; left; simp [kwPairs, mapped]
+  | cons y ys ih =>
+    intro a hnd
+    rw [List.nodup_cons] at hnd
+    simp only [kwPairs, mapped_append]
+    by_cases hy : kwTarget F y = some i
+    · right
+      have htail : ∀ x ∈ ys, kwTarget F x ≠ some i := by
+        intro x hx hxi
+        have := hinj x y hxi hy
+        exact hnd.1 (this ▸ hx)
+      have : mapped (kwPairs F (a + 1) ys) i = [] := by
+        apply List.eq_nil_iff_forall_not_mem.2
+        intro b hb
+        rw [mem_mapped, mem_kwPairs] at hb
+        obtain ⟨x, hx, _, hxi⟩ := hb
+        exact htail x (List.mem_iff_getElem?.2 ⟨_, hx⟩) hxi
+      refine ⟨a, y, ?_, Nat.le_refl _, by simp, List.mem_cons_self .., hy⟩
+      simp [hy, mapped_single, this]
+    · have hhead : ∀ r, mapped ((match kwTarget F y with | some t => [(t, a)] | none => []) ++ r) i = mapped r i := by
+        intro r
+        cases hk : kwTarget F y with
+        | none => rfl
+        | some t =>
+          have : t ≠ i := fun e => hy (by rw [hk, e])
+          show mapped ([(t, a)] ++ r) i = mapped r i
+          rw [mapped_append, mapped_single]; simp [this]
+      have hm : mapped (kwPairs F a (y :: ys)) i = mapped (kwPairs F (a + 1) ys) i := by
+        simp only [kwPairs]; exact hhead _
+      rw [← mapped_append, ← kwPairs.eq_2 F a y ys, hm]
+      rcases ih (a + 1) hnd.2 with ⟨h1, h2⟩ | ⟨b, x, h1, h2, h3, h4, h5⟩
+      · left
+        refine ⟨h1, ?_⟩
+        intro x hx
+        rcases List.mem_cons.1 hx with rfl | hx
+        · exact hy
+        · exact h2 x hx
+      · right
+        exact ⟨b, x, h1, by omega, by simp; omega, List.mem_cons_of_mem _ h4, h5⟩
+
+/-! ### the actuals of a core call -/
+
+theorem coreCall_pos {npos : Nat} {kws : List Name} {b : Nat} (h : b < npos) :
+    (coreCall npos kws)[b]? = some .pos := by
+  unfold coreCall
+  rw [List.getElem?_append_left (by simpa using h)]
+  simp [h]
+
+theorem coreCall_kw {npos : Nat} {kws : List Name} {b : Nat} (h : npos ≤ b) :
+    (coreCall npos kws)[b]? = (kws[b - npos]?).map .named := by
+  unfold coreCall
+  rw [List.getElem?_append_right (by simpa using h)]
+  simp
+
+theorem coreCall_cases {npos : Nat} {kws : List Name} {b : Nat} {act : Actual}
+    (h : (coreCall npos kws)[b]? = some act) :
+    (b < npos ∧ act = .pos) ∨ (npos ≤ b ∧ ∃ x, kws[b - npos]? = some x ∧ act = .named x) := by
+  by_cases hb : b < npos
+  · rw [coreCall_pos hb] at h; injection h with h; exact Or.inl ⟨hb, h.symm⟩
+  · rw [coreCall_kw (by omega)] at h
+    cases hx : kws[b - npos]? with
+    | none => simp [hx] at h
+    | some x => simp [hx] at h; exact Or.inr ⟨by omega, x, rfl, h.symm⟩
+
+/-! ### the diagnostics loops -/
+
+theorem checkFormalsLoop_nil_iff (acts : List Actual) (ps : Pairs) (u : Bool) :
+    ∀ (fs : List Formal) (i : Nat),
+      checkFormalsLoop acts ps u fs i = [] ↔
+        ∀ j f, fs[j]? = some f → checkFormal acts ps u (i + j) f = [] := by
+  intro fs
+  induction fs with
+  | nil => intro i; simp [checkFormalsLoop]
+  | cons g gs ih =>
+    intro i
+    simp only [checkFormalsLoop, List.append_eq_nil_iff, ih]
+    constructor
+    · rintro ⟨h1, h2⟩ j f hj
+      cases j with
+      | zero => simp at hj; subst hj; simpa using h1
+      | succ j =>
+        simp at hj
+        have := h2 j f hj
+        have e : i + 1 + j = i + (j + 1) := by omega
+        rw [e] at this; exact this
+    · intro h
+      refine ⟨by simpa using h 0 g (by simp), ?_⟩
+      intro j f hj
+      have := h (j + 1) f (by simpa using hj)
+      have e : i + 1 + j = i + (j + 1) := by omega
+      rw [e]; exact this
+
+theorem checkExtraOne_flag (F : List Formal) (ps : Pairs) (i : Nat) (a : Actual)
+    (h : (checkExtraOne F ps i a).1 = []) : (checkExtraOne F ps i a).2 = false := by
+  unfold checkExtraOne at h ⊢
+  simp only at h ⊢
+  split
+  · rename_i hc
+    rw [if_pos hc] at h
+    cases a <;> simp at h
+  · rename_i hc
+    rw [if_neg hc] at h
+    split
+    · rename_i hc2
+      rw [if_pos hc2] at h
+      cases a with
+      | pos => rfl
+      | named x => rfl
+      | star len =>
+        cases len with
+        | none => rfl
+        | some l =>
+          simp only at h ⊢
+          split
+          · rfl
+          · rfl
+      | star2 keys =>
+        cases keys with
+        | none => rfl
+        | some ks =>
+          simp only at h ⊢
+          split
+          · rename_i hl; rw [if_pos hl] at h; simp at h
+          · rfl
+    · rfl
+
+theorem checkExtraLoop_nil_iff (F : List Formal) (ps : Pairs) : ∀ (acts : List Actual) (a : Nat),
+    (checkExtraLoop F ps acts a).1 = [] ↔
+      ∀ j act, acts[j]? = some act → (checkExtraOne F ps (a + j) act).1 = [] := by
+  intro acts
+  induction acts with
+  | nil => intro a; simp [checkExtraLoop]
+  | cons x xs ih =>
+    intro a
+    simp only [checkExtraLoop, List.append_eq_nil_iff, ih]
+    constructor
+    · rintro ⟨h1, h2⟩ j act hj
+      cases j with
+      | zero => simp at hj; subst hj; simpa using h1
+      | succ j =>
+        simp at hj
+        have := h2 j act hj
+        have e : a + 1 + j = a + (j + 1) := by omega
+        rw [e] at this; exact this
+    · intro h
+      refine ⟨by simpa using h 0 x (by simp), ?_⟩
+      intro j act hj
+      have := h (j + 1) act (by simpa using hj)
+      have e : a + 1 + j = a + (j + 1) := by omega
+      rw [e]; exact this
+
+theorem checkExtraLoop_flag (F : List Formal) (ps : Pairs) : ∀ (acts : List Actual) (a : Nat),
+    (checkExtraLoop F ps acts a).1 = [] → (checkExtraLoop F ps acts a).2 = false := by
+  intro acts
+  induction acts with
+  | nil => intro a _; rfl
+  | cons x xs ih =>
+    intro a h
+    simp only [checkExtraLoop, List.append_eq_nil_iff] at h ⊢
+    rw [checkExtraOne_flag F ps a x h.1, ih (a + 1) h.2]; rfl
+
+theorem mypyErrors_nil_iff (F : List Formal) (acts : List Actual) :
+    mypyErrors F acts = [] ↔
+      (∀ j act, acts[j]? = some act →
+          (checkExtraOne F (mapActualsToFormals F acts) j act).1 = []) ∧
+      (∀ i f, F[i]? = some f → checkFormal acts (mapActualsToFormals F acts) false i f = []) := by
+  unfold mypyErrors checkArgumentCount checkExtra
+  simp only [List.append_eq_nil_iff]
+  constructor
+  · rintro ⟨h1, h2⟩
+    have hf := checkExtraLoop_flag F _ acts 0 h1
+    rw [hf] at h2
+    refine ⟨?_, ?_⟩
+    · intro j act hj
+      have := (checkExtraLoop_nil_iff F _ acts 0).1 h1 j act hj
+      simpa using this
+    · intro i f hi
+      have := (checkFormalsLoop_nil_iff acts _ false F 0).1 h2 i f hi
+      simpa using this
+  · rintro ⟨h1, h2⟩
+    have e1 : (checkExtraLoop F (mapActualsToFormals F acts) acts 0).1 = [] := by
+      rw [checkExtraLoop_nil_iff]
+      intro j act hj; simpa using h1 j act hj
+    refine ⟨e1, ?_⟩
+    rw [checkExtraLoop_flag F _ acts 0 e1, checkFormalsLoop_nil_iff]
+    intro i f hi; simpa using h2 i f hi
+
+theorem extra_pos_nil_iff (F : List Formal) (ps : Pairs) (b : Nat) :
+    (checkExtraOne F ps b .pos).1 = [] ↔ countActual ps b ≠ 0 := by
+  unfold checkExtraOne
+  by_cases h : countActual ps b = 0
+  · simp [h, Actual.kind]
+  · simp [h, Actual.kind]
+
+theorem extra_named_nil_iff (F : List Formal) (ps : Pairs) (b : Nat) (x : Name) :
+    (checkExtraOne F ps b (.named x)).1 = [] ↔ countActual ps b ≠ 0 := by
+  unfold checkExtraOne
+  by_cases h : countActual ps b = 0
+  · simp [h, Actual.kind]
+  · simp [h, Actual.kind]
+
+theorem checkFormal_nil_iff (acts : List Actual) (ps : Pairs) (u : Bool) (i : Nat) (f : Formal) :
+    checkFormal acts ps u i f = [] ↔
+      ¬ (f.kind.isRequired = true ∧ mapped ps i = [] ∧ u = false) ∧
+      ¬ (f.kind.isStar = false ∧ isDuplicateMapping acts (mapped ps i) = true) ∧
+      ¬ (f.kind.isNamed = true ∧ mapped ps i ≠ [] ∧ firstNotKeyword acts (mapped ps i) = true) := by
+  unfold checkFormal
+  simp only
+  by_cases c1 : (f.kind.isRequired && (mapped ps i).isEmpty && !u) = true
+  · rw [if_pos c1]
+    have : f.kind.isRequired = true ∧ mapped ps i = [] ∧ u = false := by
+      simpa [Bool.and_eq_true, List.isEmpty_iff, and_assoc] using c1
+    constructor
+    · intro h; split at h <;> simp at h
+    · intro h; exact absurd this h.1
+  · rw [if_neg c1]
+    have n1 : ¬ (f.kind.isRequired = true ∧ mapped ps i = [] ∧ u = false) := by
+      intro h; apply c1; simpa [Bool.and_eq_true, List.isEmpty_iff, and_assoc] using h
+    by_cases c2 : (!f.kind.isStar && isDuplicateMapping acts (mapped ps i)) = true
+    · rw [if_pos c2]
+      have : f.kind.isStar = false ∧ isDuplicateMapping acts (mapped ps i) = true := by
+        simpa [Bool.and_eq_true] using c2
+      constructor
+      · intro h; simp at h
+      · intro h; exact absurd this h.2.1
+    · rw [if_neg c2]
+      have n2 : ¬ (f.kind.isStar = false ∧ isDuplicateMapping acts (mapped ps i) = true) := by
+        intro h; apply c2; simpa [Bool.and_eq_true] using h
+      by_cases c3 : (f.kind.isNamed && !(mapped ps i).isEmpty && firstNotKeyword acts (mapped ps i)) = true
+      · rw [if_pos c3]
+        have : f.kind.isNamed = true ∧ mapped ps i ≠ [] ∧ firstNotKeyword acts (mapped ps i) = true := by
+          simpa [Bool.and_eq_true, List.isEmpty_iff, and_assoc] using c3
+        constructor
+        · intro h; simp at h
+        · intro h; exact absurd this h.2.2
+      · rw [if_neg c3]
+        have n3 : ¬ (f.kind.isNamed = true ∧ mapped ps i ≠ [] ∧ firstNotKeyword acts (mapped ps i) = true) := by
+          intro h; apply c3; simpa [Bool.and_eq_true, List.isEmpty_iff, and_assoc] using h
+        exact ⟨fun _ => ⟨n1, n2, n3⟩, fun _ => rfl⟩
+
+/-! ### duplicates / first-actual tests on the shapes that occur -/
+
+theorem dup_nil (acts : List Actual) : isDuplicateMapping acts [] = false := by
+  simp [isDuplicateMapping]
+
+theorem dup_single (acts : List Actual) (b : Nat) : isDuplicateMapping acts [b] = false := by
+  simp [isDuplicateMapping]
+
+theorem dup_pair (acts : List Actual) (i b : Nat) (hi : acts[i]? = some .pos) :
+    isDuplicateMapping acts [i, b] = true := by
+  simp [isDuplicateMapping, actualKindAt, hi, Actual.kind]
+
+theorem fnk_pos (acts : List Actual) (i : Nat) (r : List Nat) (hi : acts[i]? = some .pos) :
+    firstNotKeyword acts (i :: r) = true := by
+  simp [firstNotKeyword, actualKindAt, hi, Actual.kind]
+
+theorem fnk_named (acts : List Actual) (b : Nat) (x : Name) (r : List Nat)
+    (hb : acts[b]? = some (.named x)) : firstNotKeyword acts (b :: r) = false := by
+  simp [firstNotKeyword, actualKindAt, hb, Actual.kind]
+
+/-! ### formals of a signature, by class -/
+
+theorem lns_ge (s : Sig) : s.nargs ≤ s.lns := by
+  unfold Sig.lns; split <;> omega
+
+theorem formal_classify (s : Sig) {i : Nat} {f : Formal} (h : s.toFormals[i]? = some f) :
+    (i < s.nargs ∧ f.kind = s.posKind i) ∨
+    (i = s.nargs ∧ s.varargs.isSome = true ∧ f.kind = .star) ∨
+    (∃ j, ∃ hj : j < s.kwonly.length, i = s.nargs + s.sv + j ∧
+        f.kind = (if (s.kwonly[j]).2 then .namedOpt else .named)) ∨
+    (i = s.nargs + s.sv + s.kwonly.length ∧ f.kind = .star2) := by
+  have hlen : i < s.toFormals.length := (List.getElem?_eq_some_iff.1 h).1
+  rw [toFormals_length] at hlen
+  by_cases h1 : i < s.nargs
+  · obtain ⟨g, hg, hk, _⟩ := formal_pos s h1
+    rw [hg] at h; injection h with h; subst h
+    exact Or.inl ⟨h1, hk⟩
+  · by_cases h2 : i < s.nargs + s.sv
+    · -- the *args formal
+      have hsv : s.sv = 1 := by unfold Sig.sv at h2 ⊢; split at h2 <;> simp_all; omega
+      have hi : i = s.nargs := by omega
+      cases hv : s.varargs with
+      | none => simp [Sig.sv, hv] at hsv
+      | some v =>
+        have := formal_star s hv
+        rw [← hi, h] at this; injection this with this; subst this
+        exact Or.inr (Or.inl ⟨hi, by simp, rfl⟩)
+    · by_cases h3 : i < s.nargs + s.sv + s.kwonly.length
+      · have hj : i - (s.nargs + s.sv) < s.kwonly.length := by omega
+        have := formal_kw s hj
+        have e : s.nargs + s.sv + (i - (s.nargs + s.sv)) = i := by omega
+        rw [e, h] at this; injection this with this; subst this
+        exact Or.inr (Or.inr (Or.inl ⟨_, hj, e.symm, rfl⟩))
+      · have hi : i = s.nargs + s.sv + s.kwonly.length := by
+          cases hw : s.varkw <;> simp [hw] at hlen <;> omega
+        have := formal_star2 s
+        rw [← hi, h] at this
+        cases hw : s.varkw with
+        | none => simp [hw] at this
+        | some w =>
+          simp [hw] at this; subst this
+          exact Or.inr (Or.inr (Or.inr ⟨hi, rfl⟩))
+
+/-! ### keyword targets and CPython's slots -/
+
+theorem star2Index_isSome (s : Sig) : (star2Index s.toFormals).isSome = s.varkw.isSome := by
+  rw [star2Index_toFormals]; cases s.varkw <;> simp
+
+theorem kwTarget_ne_none (s : Sig) (hwf : s.WF) (x : Name) :
+    kwTarget s.toFormals x ≠ none ↔ (findSlot s x = none → s.varkw.isSome = true) := by
+  rw [kwTarget_eq s hwf]
+  cases h : findSlot s x with
+  | some j => simp
+  | none =>
+    simp only [forall_const]
+    rw [← star2Index_isSome]
+    cases star2Index s.toFormals <;> simp
+
+theorem kwTarget_pos_iff (s : Sig) (hwf : s.WF) (x : Name) {i : Nat} (hi : i < s.nargs) :
+    kwTarget s.toFormals x = some i ↔ findSlot s x = some i := by
+  rw [kwTarget_eq s hwf]
+  cases h : findSlot s x with
+  | some j =>
+    have e : s.formalOfSlot j = if j < s.nargs then j else j + s.sv := rfl
+    simp only [Option.some.injEq, e]
+    by_cases hlt : j < s.nargs <;> simp only [hlt, if_true, if_false] <;> constructor <;> intro e' <;> omega
+  | none =>
+    dsimp only
+    rw [star2Index_toFormals]
+    by_cases hw : s.varkw.isSome = true <;> simp [hw] <;> omega
+
+theorem kwTarget_kw_iff (s : Sig) (hwf : s.WF) (x : Name) {j : Nat} (hj : j < s.kwonly.length) :
+    kwTarget s.toFormals x = some (s.nargs + s.sv + j) ↔ findSlot s x = some (s.nargs + j) := by
+  rw [kwTarget_eq s hwf]
+  cases h : findSlot s x with
+  | some j' =>
+    have e : s.formalOfSlot j' = if j' < s.nargs then j' else j' + s.sv := rfl
+    simp only [Option.some.injEq, e]
+    by_cases hlt : j' < s.nargs <;> simp only [hlt, if_true, if_false] <;> constructor <;> intro e' <;> omega
+  | none =>
+    dsimp only
+    rw [star2Index_toFormals]
+    by_cases hw : s.varkw.isSome = true <;> simp [hw] <;> omega
+
+/-! ### `formal_to_actual[i]` for the two classes of slot formals -/
+
+theorem mapped_core_pos (s : Sig) (npos : Nat) (kws : List Name) {i : Nat} (hi : i < s.nargs) :
+    mapped (posPairs s 0 npos ++ kwPairs s.toFormals npos kws) i =
+      (if i < npos then [i] else []) ++ mapped (kwPairs s.toFormals npos kws) i := by
+  rw [mapped_append, mapped_posPairs_lt s (Nat.lt_of_lt_of_le hi (lns_ge s))]
+  simp
+
+theorem mapped_core_kwf (s : Sig) (npos : Nat) (kws : List Name) {j : Nat} (hj : j < s.kwonly.length) :
+    mapped (posPairs s 0 npos ++ kwPairs s.toFormals npos kws) (s.nargs + s.sv + j) =
+      (if s.varargs.isSome = false ∧ s.nargs + j < npos then [s.nargs + j] else []) ++
+        mapped (kwPairs s.toFormals npos kws) (s.nargs + s.sv + j) := by
+  rw [mapped_append]
+  congr 1
+  cases hv : s.varargs with
+  | some v =>
+    have hsv : s.sv = 1 := by simp [Sig.sv, hv]
+    have : s.lns < s.nargs + s.sv + j := by simp [Sig.lns, hv]; omega
+    rw [mapped_posPairs_gt s this]; simp
+  | none =>
+    have hsv : s.sv = 0 := by simp [Sig.sv, hv]
+    have : s.nargs + s.sv + j < s.lns := by simp [Sig.lns, hv]; omega
+    rw [mapped_posPairs_lt s this, hsv]; simp
+
+theorem count_core_pos (s : Sig) (npos : Nat) (kws : List Name) {b : Nat} (hb : b < npos) :
+    countActual (posPairs s 0 npos ++ kwPairs s.toFormals npos kws) b ≠ 0 ↔ posTarget s b ≠ none := by
+  rw [Ne, countActual_eq_zero]
+  constructor
+  · intro h hn
+    apply h
+    intro t hm
+    rcases List.mem_append.1 hm with hm | hm
+    · rw [mem_posPairs] at hm; rw [hn] at hm; cases hm.2.2
+    · rw [mem_kwPairs] at hm; obtain ⟨_, _, h2, _⟩ := hm; omega
+  · intro h hall
+    cases hp : posTarget s b with
+    | none => exact h hp
+    | some t =>
+      exact hall t (List.mem_append_left _ ((mem_posPairs s npos 0 t b).2 ⟨by omega, by omega, hp⟩))
+
+theorem count_core_kw (s : Sig) (npos : Nat) (kws : List Name) {b : Nat} {x : Name} (hb : npos ≤ b)
+    (hx : kws[b - npos]? = some x) :
+    countActual (posPairs s 0 npos ++ kwPairs s.toFormals npos kws) b ≠ 0 ↔
+      kwTarget s.toFormals x ≠ none := by
+  rw [Ne, countActual_eq_zero]
+  constructor
+  · intro h hn
+    apply h
+    intro t hm
+    rcases List.mem_append.1 hm with hm | hm
+    · rw [mem_posPairs] at hm; omega
+    · rw [mem_kwPairs] at hm
+      obtain ⟨y, h1, _, h3⟩ := hm
+      rw [hx] at h1; injection h1 with h1; subst h1
+      rw [hn] at h3; cases h3
+  · intro h hall
+    cases hp : kwTarget s.toFormals x with
+    | none => exact h hp
+    | some t =>
+      exact hall t (List.mem_append_right _ ((mem_kwPairs _ kws npos t b).2 ⟨x, hx, hb, hp⟩))
+
+/-! ### mypy's model reports nothing ⇔ `CoreOk` -/
+
+/-- shape of the keyword part for a positional formal -/
+theorem kwM_pos (s : Sig) (hwf : s.WF) (npos : Nat) (kws : List Name) (hk : kws.Nodup) {i : Nat}
+    (hi : i < s.nargs) :
+    (mapped (kwPairs s.toFormals npos kws) i = [] ∧ ∀ x ∈ kws, findSlot s x ≠ some i) ∨
+    (∃ b x, mapped (kwPairs s.toFormals npos kws) i = [b] ∧ npos ≤ b ∧ b < npos + kws.length ∧
+      x ∈ kws ∧ findSlot s x = some i) := by
+  have hinj : ∀ x y, kwTarget s.toFormals x = some i → kwTarget s.toFormals y = some i → x = y := by
+    intro x y hx hy
+    rw [kwTarget_pos_iff s hwf x hi] at hx
+    rw [kwTarget_pos_iff s hwf y hi] at hy
+    exact findSlot_inj hx hy
+  rcases mapped_kwPairs_shape s.toFormals i hinj kws npos hk with ⟨h1, h2⟩ | ⟨b, x, h1, h2, h3, h4, h5⟩
+  · left
+    refine ⟨h1, fun x hx hs => h2 x hx ((kwTarget_pos_iff s hwf x hi).2 hs)⟩
+  · right
+    exact ⟨b, x, h1, h2, h3, h4, (kwTarget_pos_iff s hwf x hi).1 h5⟩
+
+/-- shape of the keyword part for a keyword-only formal -/
+theorem kwM_kwf (s : Sig) (hwf : s.WF) (npos : Nat) (kws : List Name) (hk : kws.Nodup) {j : Nat}
+    (hj : j < s.kwonly.length) :
+    (mapped (kwPairs s.toFormals npos kws) (s.nargs + s.sv + j) = [] ∧
+        ∀ x ∈ kws, findSlot s x ≠ some (s.nargs + j)) ∨
+    (∃ b x, mapped (kwPairs s.toFormals npos kws) (s.nargs + s.sv + j) = [b] ∧ npos ≤ b ∧
+      b < npos + kws.length ∧ x ∈ kws ∧ findSlot s x = some (s.nargs + j)) := by
+  have hinj : ∀ x y, kwTarget s.toFormals x = some (s.nargs + s.sv + j) →
+      kwTarget s.toFormals y = some (s.nargs + s.sv + j) → x = y := by
+    intro x y hx hy
+    rw [kwTarget_kw_iff s hwf x hj] at hx
+    rw [kwTarget_kw_iff s hwf y hj] at hy
+    exact findSlot_inj hx hy
+  rcases mapped_kwPairs_shape s.toFormals _ hinj kws npos hk with ⟨h1, h2⟩ | ⟨b, x, h1, h2, h3, h4, h5⟩
+  · left
+    refine ⟨h1, fun x hx hs => h2 x hx ((kwTarget_kw_iff s hwf x hj).2 hs)⟩
+  · right
+    exact ⟨b, x, h1, h2, h3, h4, (kwTarget_kw_iff s hwf x hj).1 h5⟩
+
+theorem coreCall_named_at {npos : Nat} {kws : List Name} {b : Nat} (h1 : npos ≤ b)
+    (h2 : b < npos + kws.length) : ∃ x, (coreCall npos kws)[b]? = some (.named x) := by
+  rw [coreCall_kw h1]
+  have : b - npos < kws.length := by omega
+  exact ⟨kws[b - npos], by simp [this]⟩
+
+theorem posKind_required (s : Sig) (i : Nat) : (s.posKind i).isRequired = true ↔ i + s.ndef < s.nargs := by
+  unfold Sig.posKind; split <;> simp [FK.isRequired, *]
+
+theorem mypy_ok_of_coreOk (s : Sig) (hwf : s.WF) (npos : Nat) (kws : List Name) (hk : kws.Nodup)
+    (ok : CoreOk s npos kws) : mypyErrors s.toFormals (coreCall npos kws) = [] := by
+  rw [mypyErrors_nil_iff, map_core]
+  constructor
+  · -- no extra actuals
+    intro b act hb
+    rcases coreCall_cases hb with ⟨hlt, rfl⟩ | ⟨hge, x, hx, rfl⟩
+    · rw [extra_pos_nil_iff, count_core_pos s npos kws hlt]
+      unfold posTarget
+      rcases ok.a with h | h
+      · have := lns_ge s
+        have : b < s.lns := by omega
+        simp [this]
+      · split <;> simp [h]
+    · rw [extra_named_nil_iff, count_core_kw s npos kws hge hx, kwTarget_ne_none s hwf]
+      exact ok.b x (List.mem_iff_getElem?.2 ⟨_, hx⟩)
+  · -- every formal is fine
+    intro i f hf
+    rw [checkFormal_nil_iff]
+    rcases formal_classify s hf with ⟨hi, hkind⟩ | ⟨_, _, hkind⟩ | ⟨j, hj, hi, hkind⟩ | ⟨_, hkind⟩
+    · -- positional formal
+      have hpos : ∀ {c : Nat}, c < npos → (coreCall npos kws)[c]? = some .pos := fun h => coreCall_pos h
+      rw [mapped_core_pos s npos kws hi]
+      have hns : f.kind.isStar = false := by
+        rcases posKind_cases s i with h | h <;> simp [hkind, h, FK.isStar]
+      have hnn : f.kind.isNamed = false := by
+        rcases posKind_cases s i with h | h <;> simp [hkind, h, FK.isNamed]
+      rcases kwM_pos s hwf npos kws hk hi with ⟨hm, hno⟩ | ⟨b, x, hm, hb1, hb2, hx, hxs⟩
+      · rw [hm]
+        refine ⟨?_, ?_, by simp [hnn]⟩
+        · rintro ⟨hreq, hemp, _⟩
+          rw [hkind, posKind_required] at hreq
+          rcases ok.d i (by omega) with h | ⟨x, hx, hxs⟩
+          · simp [h] at hemp
+          · exact hno x hx hxs
+        · rintro ⟨_, hdup⟩
+          split at hdup <;> simp [dup_nil, dup_single] at hdup
+      · rw [hm]
+        have hci := ok.c x hx i hxs
+        have hnot : ¬ i < npos := by omega
+        simp only [hnot, if_false, List.nil_append]
+        refine ⟨by simp, by simp [dup_single], by simp [hnn]⟩
+    · -- *args
+      simp [hkind, FK.isRequired, FK.isStar, FK.isNamed]
+    · -- keyword-only formal
+      subst hi
+      rw [mapped_core_kwf s npos kws hj]
+      have hposM : ¬ (s.varargs.isSome = false ∧ s.nargs + j < npos) := by
+        rintro ⟨h1, h2⟩
+        rcases ok.a with h | h
+        · omega
+        · rw [h] at h1; cases h1
+      simp only [hposM, if_false, List.nil_append]
+      have hns : f.kind.isStar = false := by rw [hkind]; split <;> simp [FK.isStar]
+      rcases kwM_kwf s hwf npos kws hk hj with ⟨hm, hno⟩ | ⟨b, x, hm, hb1, hb2, hx, hxs⟩
+      · rw [hm]
+        refine ⟨?_, by simp [dup_nil], by simp⟩
+        rintro ⟨hreq, _, _⟩
+        have hnd : (s.kwonly[j]).2 = false := by
+          rw [hkind] at hreq
+          cases hd : (s.kwonly[j]).2 <;> simp [hd, FK.isRequired] at hreq ⊢
+        obtain ⟨x, hx, hxs⟩ := ok.e j hj hnd
+        exact hno x hx hxs
+      · rw [hm]
+        obtain ⟨y, hy⟩ := coreCall_named_at hb1 hb2
+        refine ⟨by simp, by simp [dup_single], ?_⟩
+        rintro ⟨_, _, hfn⟩
+        rw [fnk_named _ b y [] hy] at hfn; cases hfn
+    · -- **kwargs
+      simp [hkind, FK.isRequired, FK.isStar, FK.isNamed]
+
+theorem coreOk_of_mypy_ok (s : Sig) (hwf : s.WF) (npos : Nat) (kws : List Name) (hk : kws.Nodup)
+    (h : mypyErrors s.toFormals (coreCall npos kws) = []) : CoreOk s npos kws := by
+  rw [mypyErrors_nil_iff, map_core] at h
+  obtain ⟨hex, hfo⟩ := h
+  have hposAt : ∀ {c : Nat}, c < npos → (coreCall npos kws)[c]? = some .pos := fun h => coreCall_pos h
+  -- (a) first: it is used by the other clauses
+  have ha : npos ≤ s.nargs ∨ s.varargs.isSome = true := by
+    by_cases hv : s.varargs.isSome = true
+    · exact Or.inr hv
+    · left
+      apply Nat.le_of_not_lt
+      intro hgt
+      have hvn : s.varargs = none := by cases hvv : s.varargs <;> simp [hvv] at hv ⊢
+      have hsv : s.sv = 0 := by simp [Sig.sv, hvn]
+      by_cases hK : s.kwonly.length = 0
+      · -- the positional actual number nargs is mapped nowhere
+        have h1 := hex s.nargs .pos (hposAt hgt)
+        rw [extra_pos_nil_iff, count_core_pos s npos kws hgt] at h1
+        apply h1
+        simp [posTarget, Sig.lns, hvn, hK]
+      · -- it lands on the first keyword-only formal
+        have hj : 0 < s.kwonly.length := by omega
+        have hf := formal_kw s hj
+        have h1 := hfo _ _ hf
+        rw [checkFormal_nil_iff, mapped_core_kwf s npos kws hj] at h1
+        have hc : s.varargs.isSome = false ∧ s.nargs + 0 < npos := ⟨by simp [hvn], by omega⟩
+        simp only [hc, and_self, if_true] at h1
+        have hnamed : (if (s.kwonly[0]).2 = true then FK.namedOpt else FK.named).isNamed = true := by
+          split <;> rfl
+        have hnstar : (if (s.kwonly[0]).2 = true then FK.namedOpt else FK.named).isStar = false := by
+          split <;> rfl
+        have hp0 : (coreCall npos kws)[s.nargs + 0]? = some .pos := hposAt (by omega)
+        rcases kwM_kwf s hwf npos kws hk hj with ⟨hm, _⟩ | ⟨b, x, hm, _, _, _, _⟩
+        · rw [hm] at h1
+          apply h1.2.2
+          exact ⟨hnamed, by simp, fnk_pos _ _ _ hp0⟩
+        · rw [hm] at h1
+          apply h1.2.1
+          exact ⟨hnstar, dup_pair _ _ _ hp0⟩
+  refine ⟨ha, ?_, ?_, ?_, ?_⟩
+  · -- (b)
+    intro x hx
+    obtain ⟨c, hc⟩ := List.mem_iff_getElem?.1 hx
+    have hact : (coreCall npos kws)[npos + c]? = some (.named x) := by
+      rw [coreCall_kw (by omega)]; simp [hc]
+    have h1 := hex _ _ hact
+    rw [extra_named_nil_iff, count_core_kw s npos kws (by omega) (by simpa using hc),
+      kwTarget_ne_none s hwf] at h1
+    exact h1
+  · -- (c)
+    intro x hx j hjs
+    apply Nat.le_of_not_lt
+    intro hlt
+    have hj : j < s.nargs := by omega
+    obtain ⟨f, hf, hkind, _⟩ := formal_pos s hj
+    have h1 := hfo _ _ hf
+    rw [checkFormal_nil_iff, mapped_core_pos s npos kws hj] at h1
+    have hjn : j < npos := by omega
+    simp only [hjn, if_true] at h1
+    have hns : f.kind.isStar = false := by
+      rcases posKind_cases s j with h | h <;> simp [hkind, h, FK.isStar]
+    rcases kwM_pos s hwf npos kws hk hj with ⟨_, hno⟩ | ⟨b, y, hm, _, _, _, _⟩
+    · exact hno x hx hjs
+    · rw [hm] at h1
+      exact h1.2.1 ⟨hns, dup_pair _ _ _ (hposAt hjn)⟩
+  · -- (d)
+    intro i hi
+    have hin : i < s.nargs := by omega
+    obtain ⟨f, hf, hkind, _⟩ := formal_pos s hin
+    have h1 := hfo _ _ hf
+    rw [checkFormal_nil_iff, mapped_core_pos s npos kws hin] at h1
+    by_cases hlt : i < npos
+    · exact Or.inl hlt
+    · right
+      simp only [hlt, if_false, List.nil_append] at h1
+      rcases kwM_pos s hwf npos kws hk hin with ⟨hm, _⟩ | ⟨b, x, _, _, _, hx, hxs⟩
+      · exfalso
+        apply h1.1
+        refine ⟨?_, hm, by simp⟩
+        rw [hkind, posKind_required]; omega
+      · exact ⟨x, hx, hxs⟩
+  · -- (e)
+    intro j hj hreq
+    have hf := formal_kw s hj
+    have h1 := hfo _ _ hf
+    rw [checkFormal_nil_iff, mapped_core_kwf s npos kws hj] at h1
+    have hposM : ¬ (s.varargs.isSome = false ∧ s.nargs + j < npos) := by
+      rintro ⟨h1', h2⟩
+      rcases ha with h | h
+      · omega
+      · rw [h] at h1'; cases h1'
+    simp only [hposM, if_false, List.nil_append] at h1
+    rcases kwM_kwf s hwf npos kws hk hj with ⟨hm, _⟩ | ⟨b, x, _, _, _, hx, hxs⟩
+    · exfalso
+      apply h1.1
+      refine ⟨?_, hm, by simp⟩
+      simp [hreq, FK.isRequired]
+    · exact ⟨x, hx, hxs⟩
+
+theorem mypy_ok_iff (s : Sig) (hwf : s.WF) (npos : Nat) (kws : List Name) (hk : kws.Nodup) :
+    mypyErrors s.toFormals (coreCall npos kws) = [] ↔ CoreOk s npos kws :=
+  ⟨coreOk_of_mypy_ok s hwf npos kws hk, mypy_ok_of_coreOk s hwf npos kws hk⟩
+
+/-! ### the call site on core calls -/
+
+theorem evalCall_pos (rest : List Actual) : ∀ (k n : Nat) (acc : List Name),
+    evalCall (List.replicate k .pos ++ rest) n acc = evalCall rest (n + k) acc := by
+  intro k
+  induction k with
+  | zero => intro n acc; simp
+  | succ k ih =>
+    intro n acc
+    simp only [List.replicate_succ, List.cons_append, evalCall, ih]
+    congr 1; omega
+
+theorem evalCall_kws : ∀ (kws : List Name) (n : Nat) (acc : List Name), (acc ++ kws).Nodup →
+    evalCall (kws.map .named) n acc = some (.ok (n, acc ++ kws)) := by
+  intro kws
+  induction kws with
+  | nil => intro n acc _; simp [evalCall]
+  | cons x xs ih =>
+    intro n acc hnd
+    have hx : acc.contains x = false := by
+      have := (List.nodup_append.1 hnd).2.2
+      cases hc : acc.contains x with
+      | false => rfl
+      | true =>
+        have hm : x ∈ acc := by simpa using hc
+        exact absurd rfl (this x hm x (List.mem_cons_self ..))
+    simp only [List.map_cons, evalCall, mergeKeys, hx]
+    have : (acc ++ [x] ++ xs).Nodup := by simpa using hnd
+    rw [show (if false = true then Except.error (PyErr.kwDup x) else Except.ok (acc ++ [x]))
+          = (Except.ok (acc ++ [x]) : Except PyErr (List Name)) from rfl]
+    simp only
+    rw [ih n (acc ++ [x]) this]
+    simp
+
+theorem pyCall_core (s : Sig) (npos : Nat) (kws : List Name) (hk : kws.Nodup) :
+    pyCall s (coreCall npos kws) = some (pyBind s npos kws) := by
+  unfold pyCall coreCall
+  rw [evalCall_pos, evalCall_kws kws _ [] (by simpa using hk)]
+  simp
 
 end PyBind
